@@ -242,6 +242,9 @@ def tcp_next(E):
         E.cover('read-failed')
         E.prove('tcp:read_failure_becomes_RSocketTransportError',
                 e.value.cls.issubclass(E.lookup('rsocket/exceptions.py::RSocketTransportError')))
+        E.prove('tcp:fails_only_when_the_read_itself_failed[reader.read(buffer size) was called and raised]',
+                any(x.startswith('opaque-raise:reader.read') and x.endswith(':1') for x in E.path.sig)
+                and len(log.of(reader, 'read')) == 1 and log.of(reader, 'read')[0][2] == (1024,))
         return
     if r is None:
         E.cover('eof')
@@ -414,14 +417,32 @@ def _messaging(which):
             mod.globals['aiohttp'] = SOpaque('module', 'aiohttp', attrs={'WSMsgType': SOpaque('enum', 'WSMsgType', attrs={'BINARY': BIN, 'TEXT': TXT})})
             log = OpaqueLog(E, returns={'send_bytes': lambda E_, o, m, a, k: (sent.append(a[0]), aio.Awaitable('ready'))[1]})
             ws = SOpaque('websocket', 'aiohttp-websocket')
-            ws._pyvc_iter = lambda E_: list(msgs)
+            # the client-side listener owns its failure handling: the socket may break after any number of messages
+            breaks_after = [None, 0, 2][E.path.choice(3, 'socket-breaks')] if which == 'aiohttp-client' else None
+            broke = E.make_exc('OSError', 'websocket broke')
+
+            def deliver(E_):
+                for i, m_ in enumerate(msgs):
+                    if breaks_after is not None and i == breaks_after:
+                        raise PyExc(broke)
+                    yield m_
+            ws._pyvc_iter = deliver
             if which == 'aiohttp-client':
                 t = E.call(cls, [None, ws])
                 t.attrs['_connection_ready'].attrs['flag'] = True
             else:
                 t = E.call(cls, [ws])
             E.await_value(E.call(E.getattr(t, 'handle_incoming_ws_messages'), []))
-            binary = [d for d, kd in zip(datas, kinds) if kd is BIN]
+            binary = [d for d, kd in list(zip(datas, kinds))[:breaks_after] if kd is BIN]
+            if breaks_after is not None:
+                E.cover('socket-broke')
+                q = t.attrs['_incoming_frame_queue'].attrs['_queue']
+                E.prove('messaging:a_broken_socket_is_reported_to_the_receiver_as_one_transport_error_after_the_frames_already_parsed',
+                        len(q) == len(frames_out) + 1 and all(a is b for a, b in zip(q, frames_out)) and isinstance(q[-1], SObj)
+                        and q[-1].cls.issubclass(E.lookup('rsocket/exceptions.py::RSocketTransportError')))
+                E.prove('messaging:every_binary_message_before_the_break_parsed_whole_once_in_order',
+                        len(fed) == len(binary) and all(f[0] is b and f[1] == 0 for f, b in zip(fed, binary)))
+                return
         E.cover('messages-processed')
         P = E.prove
         P('messaging:every_binary_message_parsed_whole_once_in_order_in_message_mode',
